@@ -56,8 +56,8 @@ def render(steps, tg, D=None):
         return []
     if t in ("idx", "idxd", "u8"):
         cap = D if t == "idxd" else tg.get("cap", 2000)
-        if t in ("idx",) and cap > 64:
-            cap = 64
+        if t in ("idx",) and cap > 64 and D is not None:
+            cap = 64      # the iteration harness holds at most 64 indices (common/src/keys.rs: TI); transcode uses the capacity as given
         if len(steps) > cap or (t == "u8" and any(s[0] > 255 for s in steps)):
             return None
         return [s[0] for s in steps] + [0] * (cap - len(steps))
@@ -359,7 +359,7 @@ def ref_absent(t, val, steps):
                 return ("absent", d)
             t, val = (t["t"] if (k == "bound" or idx == 0) else t["e"]), val[2]
             continue
-        elif k in ("range", "rangefrom", "rangeto"):
+        elif k in ("range", "rangeincl", "rangefrom", "rangeto"):
             t, val = t["t"], val[1][idx]
         else:
             return None
